@@ -250,6 +250,10 @@ class _RowModel:
                 return p_xor(self.value(e.args[0]), self.value(e.args[1]))
             if at in ("astype", "copy") and isinstance(e.func, ast.Attribute):
                 return self.value(e.func.value)
+            if cn in ("np.zeros_like", "np.zeros") or (cn in ("np.full_like",) and len(e.args) > 1 and isinstance(e.args[1], ast.Constant) and e.args[1].value == 0):
+                return ZERO
+            if cn in ("np.ones_like", "np.ones"):
+                return ONE
             raise Unmodelled(f"call `{short(e)}`")
         raise Unmodelled(f"expression `{short(e)}`")
 
@@ -269,8 +273,10 @@ class _RowModel:
             return True
         return False
 
-    def run(self) -> None:
+    def run(self, stop_at_other_return: bool = False):
         for st in self.fn.body:
+            if stop_at_other_return and isinstance(st, ast.Return) and st.value is not None and norm(st.value) != self.tab:
+                return st
             if isinstance(st, ast.Expr) and isinstance(st.value, ast.Constant):
                 continue
             if isinstance(st, ast.Assert):
@@ -342,6 +348,24 @@ def _conj_table(u, n: int) -> Dict[Tuple[int, ...], Tuple[Tuple[int, ...], int]]
         if bits not in out:
             raise AnalysisError("model: image of a Pauli is not a signed Pauli")
     return out
+
+
+def pauli_of_mask(p: Poly, q: str) -> Optional[str]:
+    """Which Pauli error on qubit q flips exactly the rows selected by the GF(2) polynomial p of that row's bits (None: no Pauli does)."""
+    x, z = var(f"x_{q}"), var(f"z_{q}")
+    return {ZERO: "I", z: "X", x: "Z", p_xor(x, z): "Y"}.get(p)
+
+
+def mask_list(fn: ast.FunctionDef, helpers: Dict[str, str]) -> Tuple[str, List[Poly]]:
+    """For a helper `f(tableau, qubit)` that returns a list of row masks built from the tableau's columns at that qubit: the qubit
+    parameter and the masks as GF(2) polynomials of one row's bits."""
+    rm = _RowModel(fn, helpers)
+    if len(rm.qs) != 1:
+        raise Unmodelled("helper does not take (tableau, qubit)")
+    ret = rm.run(stop_at_other_return=True)
+    if ret is None or not isinstance(ret.value, (ast.List, ast.Tuple)):
+        raise Unmodelled("helper does not return a list of masks")
+    return rm.qs[0], [rm.value(e) for e in ret.value.elts]
 
 
 PRIMS = {"hadamard_gate": (1, cl.H, "H"), "phase_gate": (1, cl.P, "P"), "cnot_gate": (2, cl.CNOT, "CNOT")}
